@@ -1,5 +1,6 @@
 import Zeno.Proofs.Pipeline
 import Zeno.Proofs.Life
+import Zeno.Proofs.LifeDone
 import Zeno.Gen.Stages
 import Zeno.Gen.Pipeline
 import Zeno.Gen.Item
@@ -88,5 +89,27 @@ theorem c01_seed_is_let_go (cfg : Cfg) (hdc : cfg.domainsCrawl = false) (os : Li
   have := Zeno.Model.Life.life_bounded Zeno.Gen.Stages.facts (by decide) (by decide) I (by decide) cfg hdc os seen 0 _
     (Zeno.Model.Life.start_seed cfg.maxRedirect i hf hr) hids (by omega)
   exact this.1
+
+/-- **Only after the whole tree is done — for the stages themselves.** One pass of a seed through the stage models, started
+from the shape a pass starts in (`Start`: depth `d`, pending nodes Fresh and on level `d`, ranked; `wp`: every node with a
+descendant on level `d` is GotChildren / GotRedirected): the finisher lets the seed go only if no node of the resulting tree
+is still Fresh, PreProcessed or Archived; otherwise the seed is sent round again, one level deeper, in the same shape. No
+assumption on the trees the stages hand on: they are computed by `preprocess`, `archive`, `postprocess`. -/
+theorem c01_pass_acknowledges_only_done_trees (cfg : Cfg) (hdc : cfg.domainsCrawl = false) (o : Zeno.Model.Life.Oracle) (seen : Seen)
+    (d : Nat) (t : Tree) (h : Zeno.Model.Life.Start cfg.maxRedirect d t) (hw : t.wp d = true)
+    (hid : Zeno.Model.Life.passIds Zeno.Gen.Stages.facts I cfg o seen t = true) :
+    let r := Zeno.Model.Life.pass Zeno.Gen.Stages.facts I cfg o seen t
+    (r.act = .finish ∧ r.tree.anyPending = false) ∨
+    (r.act = .feedback ∧ Zeno.Model.Life.Start cfg.maxRedirect (d + 1) r.tree ∧ r.tree.wp (d + 1) = true) :=
+  Zeno.Model.Life.pass_progressW Zeno.Gen.Stages.facts (by decide) (by decide) I (by decide) cfg hdc o seen h hw hid
+
+/-- … and over a whole life: the tree with which a seed finally leaves the pipeline (and is acknowledged to the queue) has
+nothing pending, whatever the site served in whichever pass. -/
+theorem c01_acknowledged_tree_is_done (cfg : Cfg) (hdc : cfg.domainsCrawl = false) (os : List Zeno.Model.Life.Oracle) (seen : Seen) (i : Info)
+    (hf : i.st = .fresh) (hr : i.redirects = 0)
+    (hids : Zeno.Model.Life.idsOK Zeno.Gen.Stages.facts I cfg os seen (.node i .nil) = true) (t' : Tree)
+    (hfin : (Zeno.Model.Life.life Zeno.Gen.Stages.facts I cfg os seen (.node i .nil)).2 = some t') : t'.anyPending = false :=
+  Zeno.Model.Life.life_done Zeno.Gen.Stages.facts (by decide) (by decide) I (by decide) cfg hdc os seen 0 _
+    (Zeno.Model.Life.start_seed cfg.maxRedirect i hf hr) (Zeno.Model.Life.Tree.wp_zero _) hids t' hfin
 
 end Zeno.Props.C01
